@@ -198,3 +198,35 @@ def fmt(bits):
             return '~' + one(e[1])
         return '%s.%d' % (e[1], e[2])
     return '[' + ' '.join(one(e) for e in reversed(bits)) + ']'
+
+
+def lin_of_bits(st, bl):
+    """exact linear expression denoted by a bit vector when every bit is a constant or bit k of a non-negative input
+    symbol placed at a fixed shift, and every possibly-set bit of each symbol is present; else None"""
+    by_sym = {}
+    const = 0
+    for p, e in enumerate(bl):
+        if e == 0:
+            continue
+        if e == 1:
+            const |= 1 << p
+            continue
+        if not (isinstance(e, tuple) and e[0] == 'i'):
+            return None
+        by_sym.setdefault(e[1], []).append((p, e[2]))
+    lin = Lin.const(const)
+    for s_, pairs in by_sym.items():
+        shifts = {p - k for p, k in pairs}
+        if len(shifts) != 1:
+            return None
+        sh = next(iter(shifts))
+        if sh < 0:
+            return None
+        lo, hi = st.lo.get(s_), st.hi.get(s_)
+        if lo is None or lo < 0 or hi is None:
+            return None
+        need = set(range(hi.bit_length()))
+        if not need <= {k for p, k in pairs}:
+            return None
+        lin = lin + Lin.sym(s_).scale(1 << sh)
+    return lin
